@@ -187,6 +187,7 @@ def run_shard(ctx):
 def replay(record):
     from ..runner import Ctx
     ctx = Ctx("C19", "quick", 0, 0, 1, collect=True)
+    ctx.replaying = True
     prop(ctx, {"spec": record["spec"], "seed": record.get("seed", 0)})
     if ctx.violations:
         b, (sz, rec) = next(iter(ctx.violations.items()))
